@@ -375,7 +375,13 @@ drains the iterator finds the destination empty and not closed (0 bytes for JSON
 					}
 					lit, ok := g.Call.Fun.(*ast.FuncLit)
 					if !ok {
-						return true
+						// go f(), f a local variable bound to one function literal
+						if id, isId := g.Call.Fun.(*ast.Ident); isId {
+							lit = localFuncLits(info, fd.Body)[info.ObjectOf(id)]
+						}
+						if lit == nil {
+							return true
+						}
 					}
 					var wac, cl, wt token.Pos
 					ast.Inspect(lit.Body, func(m ast.Node) bool {
